@@ -238,13 +238,30 @@ Inductive view_op :=
 | OHeldBits (k : bkey) (v : Z)
 (* the stored bytes change by a route that is not this accessor: a received PDO frame, the device or
    a second accessor changing the object, a direct write of the data *)
-| OPoke (bs : list Z).
+| OPoke (bs : list Z)
+(* the second public route: var.write(value, fmt) / var.read(fmt); fmt as a code (fmt_code) and, for a
+   write, the assignment it carries (the value in the Python type that the format expects) *)
+| OWrite (fmt : Z) (o : view_op)
+| ORead (fmt : Z).
+
+(* fmt strings of read / write: "raw" = 0, "phys" = 1, "desc" = 2, any other string = 3 *)
+Definition FMT_RAW : Z := 0.
+Definition FMT_PHYS : Z := 1.
+Definition FMT_DESC : Z := 2.
+
+(* which property the method goes through: 1 = raw, 2 = phys, 3 = desc, 0 = none (the method does
+   nothing / returns None for an unknown format) *)
+Definition rw_route (fmt : Z) : Z :=
+  if fmt =? FMT_RAW then 1 else if fmt =? FMT_PHYS then 2 else if fmt =? FMT_DESC then 3 else 0.
+
+Definition setter_route (o : view_op) : Z :=
+  match o with OSetRaw _ => 1 | OSetPhys _ _ => 2 | OSetDesc _ => 3 | _ => 0 end.
 
 (* one step: observation and next store (unchanged when the step raises) *)
 Definition unit_or_err {A} (c : cell) (r : res A) (f : A -> cell) : val * cell :=
   match r with Ok a => (VNone, f a) | Err k => (VErr k, c) | Abort a => (VAbort a, c) end.
 
-Definition step_op (od : odvar) (c : cell) (o : view_op) : val * cell :=
+Fixpoint step_op (od : odvar) (c : cell) (o : view_op) {struct o} : val * cell :=
   let g := cell_get (od_dt od) in
   let s := cell_set (od_dt od) in
   match o with
@@ -263,6 +280,17 @@ Definition step_op (od : odvar) (c : cell) (o : view_op) : val * cell :=
       | Err e => (VErr e, c)
       | Abort a => (VAbort a, c)
       end
+  | OWrite fmt o' =>
+      let r := rw_route fmt in
+      if r =? 0 then (VNone, c)                       (* unknown format: nothing is written *)
+      else if r =? setter_route o' then step_op od c o'  (* self.raw / self.phys / self.desc = value *)
+      else (VErr E_FUEL, c)                           (* value of another Python type: never generated *)
+  | ORead fmt =>
+      let r := rw_route fmt in
+      if r =? 1 then (res_val VZ (g c), c)
+      else if r =? 2 then (res_val qval (phys_get g od c), c)
+      else if r =? 3 then (res_val VS (desc_get g od c), c)
+      else (VNone, c)                                 (* unknown format: returns None *)
   end.
 
 (* after every step: what the step returned and the bytes of the whole buffer *)
